@@ -1,4 +1,4 @@
-// ===== shims/driver_stubs.rs — boundary of generate.rs: parser, discovery, lock writer, atomics =====
+// ===== shims/driver_stubs_core.rs — boundary of generate.rs: parser, discovery, lock writer, atomics =====
 verus! {
 
 // ---- parser boundary: find_references is a pure function of (text, configuration) --------------------
@@ -39,21 +39,6 @@ pub open spec fn finder_ok(files: Seq<CodeFile>, w: World) -> bool {
 pub open spec fn tree_small(files: Seq<Seq<char>>, fs: Map<Seq<char>, Seq<u8>>) -> bool {
     forall|cfg: Config| #[trigger] tree_missing(files, fs, cfg, files.len() as int) <= u32::MAX
 }
-impl<'ctx> CodeFinder<'ctx> {
-    // discovery fixes the set of in-scope files for the run (ghost `protected` / `files`); it writes nothing
-    #[verifier::external_body]
-    pub fn new(context: &'ctx Context, Tracked(w): Tracked<&mut World>) -> (r: Option<CodeFinder<'ctx>>)
-        requires old(w).protected == Set::<Seq<char>>::empty(), old(w).files == Seq::<Seq<char>>::empty(),
-        ensures
-            final(w).fs == old(w).fs, final(w).log == old(w).log,
-            same_but_fs(World { protected: final(w).protected, files: final(w).files, stop_seen: final(w).stop_seen, ..*old(w) }, *final(w)),
-            r.is_some() ==> finder_ok(r.unwrap().code_files@, *final(w)) && tree_small(final(w).files, final(w).fs)
-                && (forall|p: Seq<char>| #[trigger] final(w).protected.contains(p) ==> old(w).fs.dom().contains(p) && !is_temp(p) && p != lock_path()),
-            r.is_some() ==> final(w).stop_seen == old(w).stop_seen,   // a poll that returned true makes discovery fail
-            r.is_none() ==> final(w).protected == old(w).protected && final(w).files == old(w).files,
-    { unimplemented!() }
-}
-
 // ---- lock file: Context::cache_next_reference_id is verified in unit `context`; its woven contract is emitted
 // here as a stub by the unit builder (stub_of).  lock_bytes is defined there; abstract here.
 pub uninterp spec fn lock_bytes(id: u32) -> Seq<u8>;
